@@ -88,9 +88,14 @@ impl OperationControl for Repeat {
         let mut positions = Vec::new();
         // the position can lie beyond the end of the input when a precondition
         // is tried at its fixed position against a short input
+        // at most one iteration per remaining character plus one empty
+        // iteration are useful
         let bound = self
             .max
             .min(matcher.search.len().saturating_sub(position) + 1);
+        // a minimum beyond that can only be reached with empty iterations,
+        // and where one empty iteration is possible any number of them is
+        let min = self.min.min(bound);
         let mut p = position;
         if self.greedy {
             // Prime the arrays first with iterators up to the maximum length,
@@ -129,7 +134,7 @@ impl OperationControl for Repeat {
                     iterators,
                     positions,
                     bound,
-                    self.min,
+                    min,
                 ),
             )))
         } else {
@@ -139,7 +144,7 @@ impl OperationControl for Repeat {
                     matcher,
                     self.operation.as_ref(),
                     position,
-                    self.min,
+                    min,
                     self.max,
                 ),
             )))
